@@ -90,7 +90,11 @@ func setNodeKey(ctx context.Context, key string) context.Context {
 	if !existed || len(path.path) == 0 {
 		return context.WithValue(ctx, nodePathKey{}, NewNodePath(key))
 	}
-	return context.WithValue(ctx, nodePathKey{}, NewNodePath(append(path.path, key)...))
+	// copy: sibling nodes derive their paths from the same parent path, whose slice may have spare capacity
+	p := make([]string, 0, len(path.path)+1)
+	p = append(p, path.path...)
+	p = append(p, key)
+	return context.WithValue(ctx, nodePathKey{}, NewNodePath(p...))
 }
 
 func getStateModifier(ctx context.Context) StateModifier {
